@@ -1,5 +1,5 @@
 #!/bin/bash
 # Pre-builds the framework offline (populates the Go build cache).
 set -e
-cd /verif
+cd "$(dirname "$0")"
 exec ./run.sh setup
